@@ -156,3 +156,36 @@ def any_text_parses_canonically_or_is_refused(text):
     except CouldNotParseAddress:
         return
     assert parse_device_group_address(str(a)) == a, (text, str(a))
+
+
+# ------------------------------------------------------------------ integers and octet strings beyond any text limit
+# CPython refuses to convert integers of more than 4300 digits to text - also inside an error message that is being
+# built. The refusal of such a value must still be the parse error (the symbolic lemmas treat message text as opaque,
+# so this is a native stand-in).
+
+
+def _oversized(tier, **fixed):
+    for v in (10**4299, 10**4300, -(10**4300), 10**5000, -(10**5000), 1 << 20000, -(1 << 20000), 2**64, -(2**64), 65536, -1):
+        yield ("int", v)
+    for n in (0, 1, 3, 4, 100, 2000, 5000):
+        yield ("octets", b"\xff" * n)
+        yield ("octets", b"\x00" * n)
+
+
+@standin("C01", cases=_oversized, kind="enum-native", exhaustive=False, bound="11 integers outside 0..65535 up to 20000 bits (below and above CPython's 4300-digit text limit) through the three constructors and parse_device_group_address, and from_knx of 0..5000 octets: two octets are accepted; any other number of octets gives the address of that 16-bit value or CouldNotParseAddress, never another exception")
+def oversized_values_are_refused_with_the_parse_error(kind, v):
+    if kind == "int":
+        for f in (IndividualAddress, GroupAddress, InternalGroupAddress, parse_device_group_address):
+            try:
+                f(v)
+            except CouldNotParseAddress:
+                continue
+            assert False, (getattr(f, "__name__", f), "accepted an integer outside 0..65535")
+        return
+    for cls in (IndividualAddress, GroupAddress):
+        try:
+            a = cls.from_knx(v)
+        except CouldNotParseAddress:
+            assert len(v) != 2
+            continue
+        assert 0 <= a.raw <= 0xFFFF and a.raw == int.from_bytes(v, "big")
